@@ -330,18 +330,60 @@ class SInt(int):
     def __pos__(self):
         return self
 
-    def __mod__(self, m):
-        return self._b(m, lambda a, b: a % b)
+    def _nonzero_divisor(self, m):
+        """Python raises ZeroDivisionError: fork on it"""
+        if isinstance(m, SInt):
+            if self.S.decide(m.z == 0):
+                raise ZeroDivisionError("integer division or modulo by zero")
+        elif isinstance(m, int) and not isinstance(m, bool) and int.__index__(m) == 0 and type(m) is int:
+            raise ZeroDivisionError("integer division or modulo by zero")
+
+    @staticmethod
+    def _floordiv(a, b):
+        # z3's Int div is Euclidean (remainder >= 0); Python's // is floor division
+        return z3.If(b > 0, a / b, (-a) / (-b))
 
     def __floordiv__(self, m):
-        return self._b(m, lambda a, b: a / b)  # z3 Int division = floor for positive divisors
+        if isinstance(m, float):
+            return NotImplemented
+        self._nonzero_divisor(m)
+        return self._b(m, SInt._floordiv)
+
+    def __rfloordiv__(self, m):
+        if isinstance(m, float):
+            return NotImplemented
+        self._nonzero_divisor(self)
+        return self._b(m, lambda a, b: SInt._floordiv(b, a))
+
+    def __mod__(self, m):
+        if isinstance(m, float):
+            return NotImplemented
+        self._nonzero_divisor(m)
+        return self._b(m, lambda a, b: a - b * SInt._floordiv(a, b))
+
+    def __rmod__(self, m):
+        if isinstance(m, float):
+            return NotImplemented
+        self._nonzero_divisor(self)
+        return self._b(m, lambda a, b: b - a * SInt._floordiv(b, a))
+
+    def __pow__(self, n, mod=None):
+        if mod is not None or isinstance(n, SInt) or not isinstance(n, int) or not (0 <= n <= 16):
+            raise TypeError("only small constant non-negative powers of symbolic integers are modelled")
+        out = SInt(self.S, z3.IntVal(1))
+        for _ in range(n):
+            out = out * self
+        return out
 
     def _unsupported(self, *a, **k):
         raise TypeError("operation not modelled on symbolic integers")
 
-    __truediv__ = __rtruediv__ = __pow__ = __rpow__ = __lshift__ = __rshift__ = __rlshift__ = __rrshift__ = _unsupported
+    __truediv__ = __rtruediv__ = __rpow__ = __lshift__ = __rshift__ = __rlshift__ = __rrshift__ = _unsupported
     __and__ = __or__ = __xor__ = __rand__ = __ror__ = __rxor__ = __invert__ = __divmod__ = __rdivmod__ = _unsupported
-    __rmod__ = __rfloordiv__ = __abs__ = __float__ = __round__ = __trunc__ = __floor__ = __ceil__ = _unsupported
+    __float__ = __round__ = __trunc__ = __floor__ = __ceil__ = _unsupported
+
+    def __abs__(self):
+        return SInt(self.S, z3.If(self.z >= 0, self.z, -self.z))
 
     def _cmp(self, o, f):
         try:
@@ -431,3 +473,20 @@ def zxor(xs):
     for x in xs:
         out = z3.Xor(out, z(x))
     return out
+
+
+class _IntShimMeta(type):
+    def __instancecheck__(cls, x):
+        return isinstance(x, int)
+
+    def __call__(cls, x=0, *a):
+        if isinstance(x, SInt):
+            return x
+        if isinstance(x, Bit):
+            return SInt(x.S, zi(x))
+        return int(x, *a)
+
+
+class int_shim(metaclass=_IntShimMeta):
+    """stand-in for the builtin `int` inside a module namespace: int(x) keeps symbolic integers symbolic,
+    isinstance(x, int) behaves as usual (SInt is an int subclass)"""
